@@ -36,4 +36,7 @@ AccessorDecls(o) ==
 ArgTypes(o) == LET r == SelectSeq(Visible(o), LAMBDA m : m.required) IN [j \in 1..Len(r) |-> r[j].goType]
 
 FieldConsts(s) == {<<"Field" \o s.fields[j][1], s.fields[j][2]>> : j \in 1..Len(s.fields)}
+\* enumeration constants (two values of one field may share a description: then the later one wins in Go and the
+\* package would not compile; such pairs are left to the compile check)
+EnumConsts(s) == {<<s.enums[j][1], s.enums[j][2]>> : j \in {k \in 1..Len(s.enums) : \A k2 \in 1..Len(s.enums) : s.enums[k2][1] = s.enums[k][1] => k2 = k}}
 =============================================================================
